@@ -279,7 +279,7 @@ def quals_replay(vals):
 # ---------------------------------------------------------------------------------------------
 
 NAMES = ["A", "B", "AB", "A1", "a"]
-CTX = ["plain", "template", "nested", "outofclass"]
+CTX = ["plain", "template", "nested", "outofclass", "qualified", "qualified-template"]
 
 
 def build_ctor(ch):
@@ -294,6 +294,10 @@ def build_ctor(ch):
         src = f"template <typename T> class {a} {{ public: {mem}(); }};"
     elif ctx == "nested":
         src = f"struct Outer {{ struct {a} {{ {mem}(); }}; }};"
+    elif ctx == "qualified":
+        src = f"struct Outer {{ struct {a}; }}; struct Outer::{a} {{ {mem}(); int after; }};"
+    elif ctx == "qualified-template":
+        src = f"template <typename T> struct ns::Outer<T>::{a} {{ public: {mem}(); }};"
     else:
         src = f"{a}::{mem}() {{}}"
     return src, a, b, ctx, tilde
@@ -312,6 +316,8 @@ def ctor_judge(src, a, b, ctx, tilde):
         ms = d.namespace.method_impls
     elif ctx == "nested":
         ms = d.namespace.classes[0].classes[0].methods
+    elif ctx == "qualified":
+        ms = d.namespace.classes[1].methods
     else:
         ms = d.namespace.classes[0].methods
     if len(ms) != 1:
